@@ -517,3 +517,40 @@ def sector_basis_mask(qd, L, qtot):
     for _ in range(L):
         tot = np.add.outer(tot, qd).reshape(-1)
     return tot == qtot
+
+
+# ---------------------------------------------------------------------------------------------------
+# size-independent references (transfer-matrix contractions, no dense object): used by the 'large' workloads
+# ---------------------------------------------------------------------------------------------------
+
+def mps_overlap(Bra, Ket):
+    """<Bra|Ket> for tensor lists (d, Dl, Dr) with boundary bonds of dimension 1; first argument conjugated."""
+    E = np.ones((1, 1), dtype=complex)              # (bra bond, ket bond)
+    for B, K in zip(Bra, Ket):
+        # E[b, k] conj(B)[s, b, b'] K[s, k, k'] -> E'[b', k']
+        T = np.einsum('bk,sbc->ksc', E, np.conj(np.asarray(B)))
+        E = np.einsum('ksc,skl->cl', T, np.asarray(K))
+    assert E.shape == (1, 1)
+    return complex(E[0, 0])
+
+
+def mpo_element(Bra, W, Ket):
+    """<Bra| W |Ket> for MPS tensor lists and MPO tensors (d_out, d_in, Dl, Dr)."""
+    E = np.ones((1, 1, 1), dtype=complex)           # (bra bond, mpo bond, ket bond)
+    for B, O, K in zip(Bra, W, Ket):
+        T = np.einsum('bwk,sbc->wksc', E, np.conj(np.asarray(B)))          # contract bra
+        T = np.einsum('wksc,stwx->kcxt', T, np.asarray(O))                  # contract operator (s = out, t = in)
+        E = np.einsum('kcxt,tkl->cxl', T, np.asarray(K))                    # contract ket
+    assert E.shape == (1, 1, 1)
+    return complex(E[0, 0, 0])
+
+
+def product_state(rng, d, L, cplx=True):
+    """Random product state as an MPS tensor list with bond dimension 1 (probe for large objects)."""
+    return [(rng.normal(size=(d, 1, 1)) + (1j * rng.normal(size=(d, 1, 1)) if cplx else 0)) / np.sqrt(d) for _ in range(L)]
+
+
+def random_probe(rng, d, L, D=2):
+    """Random MPS tensor list with small bonds (entangled probe)."""
+    dims = [1] + [D] * (L - 1) + [1]
+    return [(rng.normal(size=(d, dims[i], dims[i + 1])) + 1j * rng.normal(size=(d, dims[i], dims[i + 1]))) / np.sqrt(d * dims[i]) for i in range(L)]
